@@ -307,5 +307,120 @@ func driveC10(o opts) error {
 		d := g.Value(c, u, sz)
 		add(c.Name, a, b, d, "rnd")
 	}
+	nmulti := 150
+	if o.tier == "thorough" {
+		nmulti = 3000
+	}
+	if err := c10MultiColumn(g, w, nmulti); err != nil {
+		return err
+	}
 	return w.Flush()
+}
+
+// c10MultiColumn: an update row naming several columns, some restating the value the row already has (immutable
+// columns can only be restated), one changed: the new model is the old one with the changed columns, the modify row
+// names exactly the changed columns, the old model is not altered. Implementation-only oracle (the Coq model is about
+// one column).
+func c10MultiColumn(g *gen.G, w *emit.Writer, n int) error {
+	const T = "T"
+	sc := c10Schema()
+	sc.Tables[0].Cols = append(sc.Tables[0].Cols,
+		val.Col{Name: "ims", K: 's', KT: 's', Max: -1, Immutable: true}, val.Col{Name: "imm", K: 'm', KT: 's', VT: 's', Max: -1, Immutable: true},
+		val.Col{Name: "ima", K: 'a', KT: 's', Immutable: true}, val.Col{Name: "imo", K: 'o', KT: 'i', Immutable: true})
+	db, err := sc.Build()
+	if err != nil {
+		return err
+	}
+	tbl := sc.Tables[0]
+	for k := 0; k < n; k++ {
+		uuid := gen.UUIDn(k)
+		a := map[string]val.Val{}
+		for _, c := range tbl.Cols {
+			a[c.Name] = g.Value(c, 5, 4)
+		}
+		// restate 1..4 columns (immutable ones with priority), change 1..2 mutable ones
+		row := map[string]val.Val{}
+		want := map[string]val.Val{}
+		for c, v := range a {
+			want[c] = v
+		}
+		changed := map[string]bool{}
+		for i := 0; i < 1+g.Intn(4); i++ {
+			c := tbl.Cols[g.Intn(len(tbl.Cols))]
+			if g.Chance(0.6) {
+				c = tbl.Cols[len(tbl.Cols)-1-g.Intn(4)]
+			}
+			row[c.Name] = a[c.Name]
+		}
+		for i := 0; i < 1+g.Intn(2); i++ {
+			c := tbl.Cols[g.Intn(len(tbl.Cols)-4)]
+			v := g.Value(c, 5, 4)
+			row[c.Name] = v
+			want[c.Name] = v
+			changed[c.Name] = !v.Equal(a[c.Name])
+		}
+		ma := db.Make(T, uuid, a)
+		before := db.RowMap(ma, T)
+		op := ovsdb.Operation{Op: ovsdb.OperationUpdate, Table: T, Row: db.OvsRow(T, row)}
+		mu := updates.ModelUpdates{}
+		oracle := ""
+		if err := mu.AddOperation(db.Model, T, uuid, ma, &op); err != nil {
+			oracle = "update restating some columns and changing others is refused: " + err.Error()
+		}
+		var got map[string]val.Val
+		var modified []string
+		_ = mu.ForEachModelUpdate(T, func(u string, old, new model.Model) error {
+			if new != nil {
+				got = db.RowMap(new, T)
+			}
+			return nil
+		})
+		_ = mu.ForEachRowUpdate(T, func(u string, ru ovsdb.RowUpdate2) error {
+			if ru.Modify != nil {
+				for c := range *ru.Modify {
+					modified = append(modified, c)
+				}
+			}
+			return nil
+		})
+		anyChange := false
+		for _, ch := range changed {
+			anyChange = anyChange || ch
+		}
+		switch {
+		case oracle != "":
+		case !rowsEqual(db.RowMap(ma, T), before):
+			oracle = "the update altered the model it was computed from"
+		case anyChange && got == nil:
+			oracle = "the update changes a column but no new model is recorded"
+		case got != nil && !rowsEqual(got, want):
+			for c := range want {
+				if !got[c].Equal(want[c]) {
+					oracle = fmt.Sprintf("update %v of a row: column %s of the new model is %s, expected %s (restated columns keep their value, changed ones take the new one)",
+						dyn.JSONRow(row), c, got[c].Key(), want[c].Key())
+				}
+			}
+		}
+		if oracle == "" {
+			for _, c := range modified {
+				if !changed[c] {
+					oracle = fmt.Sprintf("the modify row names column %s, whose value the update does not change", c)
+				}
+			}
+			for c, ch := range changed {
+				found := false
+				for _, m := range modified {
+					found = found || m == c
+				}
+				if ch && !found {
+					oracle = fmt.Sprintf("the modify row lacks column %s, which the update changes", c)
+				}
+			}
+		}
+		w.Count("multi-column update")
+		w.Add(emit.Case{Term: "C10.mk (LAtom (AInt 0)) (LAtom (AInt 0)) (LAtom (AInt 0)) None (LAtom (AInt 0)) false false (LAtom (AInt 0)) false",
+			JSON: map[string]interface{}{"multi_column_update": dyn.JSONRow(row), "row": dyn.JSONRow(a)}, Key: fmt.Sprintf("multi%d", k),
+			Nontrivial: true, Class: "multi-column", Oracle: oracle})
+	}
+	return nil
 }
